@@ -135,6 +135,9 @@ func TestPubSubSeq(t *testing.T) {
 		if e.mixed > 0 {
 			cls = append(cls, "mixed-verdicts")
 		}
+		if e.timeEq > 0 {
+			cls = append(cls, "time-equality-across-spellings")
+		}
 		nontrivial := e.mixed > 0
 		lib.Case("TestPubSubSeq", lib.FP(strings.Join(e.hist, "\n")), nontrivial, cls...)
 		if nontrivial && lib.WantSample("TestPubSubSeq") {
